@@ -87,8 +87,18 @@ def _inside_expr(node, root) -> bool:
 
 
 def _returns_none_explicitly(fn: Fn) -> bool:
+    def none_arm(v) -> bool:
+        if v is None or (isinstance(v, ast.Constant) and v.value is None):
+            return True
+        if isinstance(v, ast.IfExp):
+            return none_arm(v.body) or none_arm(v.orelse)
+        if isinstance(v, ast.Name):
+            # single-exit form: result = None ... return result
+            bs = _all_bindings(fn).get(v.id, [])
+            return any(k == "assign" and path == () and isinstance(val, ast.Constant) and val.value is None for k, _, val, path in bs)
+        return False
     for n in walk_fn(fn.node):
-        if isinstance(n, ast.Return) and (n.value is None or (isinstance(n.value, ast.Constant) and n.value.value is None)):
+        if isinstance(n, ast.Return) and none_arm(n.value):
             return True
     return False
 
